@@ -369,6 +369,7 @@ def run(ctx):
                                   {'files': c['files'], 'root': c['root']})
                 break
     commands_corr(ctx, cases[:n], obs[:n])
+    kfront.parse_corr(ctx, 'c03', cases, obs, max_texts=ctx.n(60, 600))
     for j, i in relayout:
         a, b = obs[i], obs[j]
         if a['outcome'] == 'ok' and b['outcome'] == 'ok':
